@@ -12,6 +12,8 @@
 // behind the correct prefix). Oracle: Decrypt returns an error AND a nil/empty plaintext; no panic in Decrypt
 // (h.Try); Encrypt does not panic for any (length, AD) of the C01 domain.
 //
+// Section kms-envelope-kek-answers (kekanswers.go): KEK answers that are not the DEK of a genuine envelope.
+//
 // Don't care: error texts; which of several checks rejects; mutated inputs that equal the original pair
 // (nil and empty AD are the same AD); timing.
 package main
@@ -350,7 +352,8 @@ func main() {
 	for _, k := range cfgs.Kinds {
 		secs = append(secs, h.Section{Name: names[k], Body: kindSection(k), Bound: -1})
 	}
+	secs = append(secs, h.Section{Name: "kms-envelope-kek-answers", Body: kekAnswers, Bound: -1}) // kekanswers.go
 	h.Main("C02", "exploration",
-		"product of (AEAD key type x sizes x hash x ALL variants x construction path; envelope: DEK template x KEK x path) x base plaintext lengths {0,1,15,16,17,64} (thorough: 12 lengths up to 256) x AD {empty, 5 bytes} x full mutation catalogue (every bit flip, every byte inversion, every tail and head cut, extensions 1..17 x {00,FF}, 11 foreign prefixes, prefix removed/duplicated, other key's ciphertext and nonce/body splices, every AD bit flip / cut / extension / nil, AD<->ciphertext boundary shifts, 17 envelope DEK-length values) plus arbitrary strings (all byte strings of length 0..2 bare and behind the own prefix, 4 patterns of every length 0..prefix+IV+tag+2 bare and behind the own prefix, nil) => error AND empty plaintext, no panic; Encrypt panic-free over the C01 length/AD domain. Non-trivial: a primitive was built, its valid ciphertexts decrypted (baseline) and the catalogue applied; distinct = distinct choice vectors.",
+		"product of (AEAD key type x sizes x hash x ALL variants x construction path; envelope: DEK template x KEK x path) x base plaintext lengths {0,1,15,16,17,64} (thorough: 12 lengths up to 256) x AD {empty, 5 bytes} x full mutation catalogue (every bit flip, every byte inversion, every tail and head cut, extensions 1..17 x {00,FF}, 11 foreign prefixes, prefix removed/duplicated, other key's ciphertext and nonce/body splices, every AD bit flip / cut / extension / nil, AD<->ciphertext boundary shifts, 17 envelope DEK-length values) plus arbitrary strings (all byte strings of length 0..2 bare and behind the own prefix, 4 patterns of every length 0..prefix+IV+tag+2 bare and behind the own prefix, nil) => error AND empty plaintext, no panic; Encrypt panic-free over the C01 length/AD domain. Non-trivial: a primitive was built, its valid ciphertexts decrypted (baseline) and the catalogue applied; distinct = distinct choice vectors. Section kms-envelope-kek-answers: (19 KEK answer modes: the real KEK with forged encrypted-DEK fields | 18 odd collaborator answers) x DEK template x KEK keyset x variant x path x (plaintext, AD) x encrypted-DEK contents x payloads, judged by the reference of the whole envelope (plaintext only if the KEK's answer keys the configured algorithm and the payload authenticates under it); non-trivial: an envelope primitive was built and the catalogue applied.",
 		secs)
 }
